@@ -15,7 +15,7 @@ RULE = ("history = 1-15 PooledClient calls (legal arguments; store/fetch/multi-k
         "second call of a three-call history (so a healthy pooled connection exists before and a call follows), and "
         "sweeps the idle gap over {0, timeout-1, timeout, timeout+1, 3*timeout}. Oracle: after every call no pooled "
         "connection is checked out; a socket on which a fault fired, or that was used by a call that raised or swallowed "
-        "an error, or by quit, is closed when the call ends and never touched again; a socket that has only carried "
+        "an error, or by quit / close / disconnect_all (after which the object is used again), is closed when the call ends and never touched again; a socket that has only carried "
         "successful calls and idled <= timeout is reused by the next call (no new socket); idled > timeout: it is closed "
         "at the next checkout and a new one opened; 'Too many objects' never occurs. Re-entrant calls: a serializer that itself uses the same PooledClient, so that a second pooled call starts and ends while the first holds its connection (within one thread): outer set/set_many/get/get_many x inner get/set/get_many/version/quit x 0-2 warm connections x a fault on the nested exchange (swallowed by the serializer or not) x ignore_exc x max_pool_size {2,3,None}; afterwards nothing is checked out, no connection is listed twice, no open socket lives outside the pool, two healthy connections stay idle and are reused by the following calls, close() closes everything. Non-trivial: a fault that fired is "
         "followed by a later call, or a gap above the idle timeout is followed by a call.")
@@ -37,6 +37,7 @@ OPS = [
     {"op": "delete", "key": "k", "noreply": False}, {"op": "incr", "key": "n", "delta": 1}, {"op": "touch", "key": "t", "expire": 5, "noreply": False},
     {"op": "version"}, {"op": "quit"}, {"op": "set_many", "values": {"a": b"1", "b": b"2"}, "noreply": False}, {"op": "get", "key": "x4"},
     {"op": "stats"}, {"op": "flush_all", "noreply": False}, {"op": "delete_many", "keys": ["a", "b"], "noreply": False},
+    {"op": "close"}, {"op": "disconnect_all"},      # the pool is emptied; the object is used again afterwards
 ]
 
 
@@ -95,7 +96,7 @@ def check(case):
                 labels.add("reused")
         failed = out[0] == "exc" or bool(fired_real) and (out[0] == "ok" and cfg.get("ignore_exc") and call["op"]["op"] in faultlab.READ_OPS + ("stats",))
         opened = [s for s in net.sockets if not s.closed]
-        if failed or call["op"]["op"] == "quit":
+        if failed or call["op"]["op"] in ("quit", "close", "disconnect_all"):
             still = [s.id for s in opened if s.id in used_socks or s.id == live or s.id in new]
             if still:
                 raise Violation(["failed-socket-open"], "socket(s) %r still open after %s" % (still, where))
@@ -151,8 +152,10 @@ def sweep_cases(tier, seed):
                                    "calls": [{"op": OPS[0]}, {"op": OPS[2], "advance": gap}, {"op": OPS[4], "advance": gap}, {"op": OPS[0], "advance": gap}]}
                 # idle-gap sweep
                 for gap in (0, 4, 5, 6, 15):
-                    for r in (OPS[0], OPS[2], OPS[10]):
+                    for r in (OPS[0], OPS[2], OPS[10], OPS[16], OPS[17]):
                         yield {"kind": "pooled", "cfg": cfg, "calls": [{"op": OPS[0]}, {"op": r, "advance": gap}, {"op": OPS[2], "advance": gap}, {"op": OPS[3]}]}
+                        if r["op"] in ("close", "disconnect_all", "quit"):
+                            yield {"kind": "pooled", "cfg": cfg, "calls": [{"op": OPS[0]}, {"op": r, "advance": gap}, {"op": OPS[2]}, {"op": r}, {"op": r}, {"op": OPS[0], "advance": gap}, {"op": OPS[4]}, {"op": OPS[3]}]}
 
 
 def fractional_idle_cases(tier, seed):
